@@ -961,6 +961,14 @@ func specFixedParams(cf *CompiledFunction) int {
 	return cf.NumParams
 }
 
+// specFreshArray: the packed variadic array shares no storage with the
+// argument slice it was built from nor with the VM stack (a later write to
+// either must not show through the callee's parameter).
+func specFreshArray(o Object, args []Object, stack []Object) bool {
+	a, ok := o.(Array)
+	return ok && verifrt.Disjoint([]Object(a), args) && verifrt.Disjoint([]Object(a), stack)
+}
+
 // specVarArgsIn: specVarArgs, and the array does not live in the VM stack itself.
 func specVarArgsIn(o Object, rest []Object, stack []Object) bool {
 	a, ok := o.(Array)
